@@ -1,0 +1,32 @@
+//go:build verif
+
+package plz
+
+// Contracts for the deductive verifier in /verif (govc). Comments only; compiled solely with -tags verif.
+
+// ---------------------------------------------------------------------------------------------
+// `//dir/...` expansion (C22): the callback FindAllBuildFiles hands to fs.Walk.
+//
+// A blacklisted directory hides an entry when it equals the entry's base name or is a whole leading path
+// component of it (dir itself or dir/...): blacklisting `out` must not hide `output/`.
+//@ spec underDir(d string, n string) bool = n == d || hasPrefix(n, d + "/")
+//@ spec blacklistHit(bl []string, name string) bool = exists i int :: 0 <= i && i < len(bl) && \
+//@      (strings.TrimSuffix(bl[i], "/") == filepath.Base(name) || underDir(strings.TrimSuffix(bl[i], "/"), name))
+//@ spec outOrHidden(name string, isDir bool) bool = filepath.Base(name) == core.OutDir || \
+//@      (isDir && hasPrefix(filepath.Base(name), ".") && name != ".")
+//@ spec offPrefix(name string, isDir bool, prefix string) bool = isDir && !hasPrefix(name, prefix) && !hasPrefix(prefix, name)
+//
+//@ func FindAllBuildFiles.lit#2
+//@   requires config != nil
+//@   invariant "range config.Parse.BlacklistDirs" none: forall j int :: 0 <= j && j < idx ==> \
+//@      !(strings.TrimSuffix(config.Parse.BlacklistDirs[j], "/") == basename || \
+//@        underDir(strings.TrimSuffix(config.Parse.BlacklistDirs[j], "/"), name))
+//@   ensures walks_on [C22]: result == nil || result == filepath.SkipDir
+//@   ensures output_and_hidden_skipped [C22]: outOrHidden(name, isDir) ==> result == filepath.SkipDir
+//@   ensures blacklist_skipped [C22]: blacklistHit(config.Parse.BlacklistDirs, name) ==> result == filepath.SkipDir
+//@   ensures only_documented_skips [C22]: result == filepath.SkipDir ==> (outOrHidden(name, isDir) || offPrefix(name, isDir, prefix) || \
+//@      cli.ContainsString(name, config.Parse.ExperimentalDir) || blacklistHit(config.Parse.BlacklistDirs, name))
+//@   ensures build_files_reported [C22]: !outOrHidden(name, isDir) && !offPrefix(name, isDir, prefix) && \
+//@      config.IsABuildFile(filepath.Base(name)) && !isDir ==> called("send")
+//@   callsite send only_build_files [C22]: arg_value == name && config.IsABuildFile(filepath.Base(name)) && !isDir && \
+//@      !outOrHidden(name, isDir)
